@@ -98,10 +98,11 @@ func genReload(r *vh.Rand) string {
 		}
 	}
 	addrN := 0
+	ssOn := r.Chance(1, 3)
 	mkBe := func() string {
 		addrN++
 		w := r.Range(1, 5) * 100
-		if r.Chance(1, 10) {
+		if r.Chance(1, 10) || (ssOn && r.Chance(1, 3)) {
 			w = 0
 		}
 		a := 1
@@ -138,6 +139,9 @@ func genReload(r *vh.Rand) string {
 			}
 			steps = append(steps, fmt.Sprintf("q%d:%s", retry, vh.Hex(keys[r.Intn(len(keys))])))
 		}
+	}
+	if ssOn {
+		steps = append(steps, fmt.Sprintf("S%d", ssTime))
 	}
 	reqs(r.Range(1, 3))
 	hasBk := map[string]bool{}
@@ -190,6 +194,9 @@ func genReload(r *vh.Rand) string {
 			parts[i] = fmt.Sprintf("%s:%d", e.name, e.w)
 		}
 		steps = append(steps, "R"+strings.Join(parts, "/"))
+		if ssOn { // sub-clusters created by the reload start with slowStartTime 0: switch it on for them too
+			steps = append(steps, fmt.Sprintf("S%d", ssTime))
+		}
 		newHas := map[string]bool{}
 		for _, e := range next {
 			if hasBk[e.name] {
@@ -314,7 +321,64 @@ func gen(r *vh.Rand) string {
 		}
 	}
 	steps = append(steps, fmt.Sprintf("q0:%s", vh.Hex(keys[0])))
+	if r.Chance(1, 3) {
+		for si := range ss {
+			for bi := range ss[si].bs {
+				if r.Chance(1, 4) {
+					ss[si].bs[bi].w = 0
+				}
+			}
+		}
+		steps = addSlowStart(r, ss, steps)
+	}
 	return fmt.Sprintf("gb %s %d %d %d %s %s", mode, sticky, rmax, cross, fmtSubs(ss), strings.Join(steps, ","))
+}
+
+// ssTime is the only slow-start time used (seconds); with weights <= 2000 and ages that are odd multiples of
+// 5000 s the truncated weight final*elapsed/ssTime cannot be changed by less than 2.5 s of real time.
+const ssTime = 1000000
+
+// addSlowStart rewrites a step list: slow start is switched on and backends are restarted / aged in between
+func addSlowStart(r *vh.Rand, ss []sub, steps []string) []string {
+	var out []string
+	on := false
+	for i, st := range steps {
+		if !on && (i == 0 || r.Chance(1, 4)) {
+			out = append(out, fmt.Sprintf("S%d", ssTime))
+			on = true
+		}
+		if st[0] == 'q' && r.Chance(1, 2) {
+			// before a request: restart somebody (weight-0 backends preferred), maybe age a slow start,
+			// maybe take the positive-weight backends of that sub-cluster down
+			si := r.Intn(len(ss))
+			if n := len(ss[si].bs); n > 0 {
+				bi := r.Intn(n)
+				for k := 0; k < n; k++ {
+					if ss[si].bs[k].w <= 0 && r.Chance(2, 3) {
+						bi = k
+					}
+				}
+				switch r.Intn(4) {
+				case 0, 1:
+					out = append(out, fmt.Sprintf("r%d.%d=1", si, bi), fmt.Sprintf("a%d.%d=1", si, bi))
+				case 2:
+					out = append(out, fmt.Sprintf("t%d.%d=%d", si, bi, r.Range(0, 120)*10000+5000))
+				default:
+					out = append(out, fmt.Sprintf("r%d.%d=1", si, bi), fmt.Sprintf("q0:%s", vh.Hex(r.Bytes(4))),
+						fmt.Sprintf("t%d.%d=%d", si, bi, r.Range(0, 120)*10000+5000))
+				}
+				if r.Chance(1, 2) {
+					for k := 0; k < n; k++ {
+						if k != bi && ss[si].bs[k].w > 0 {
+							out = append(out, fmt.Sprintf("a%d.%d=0", si, k))
+						}
+					}
+				}
+			}
+		}
+		out = append(out, st)
+	}
+	return out
 }
 
 func errName(err error) string {
@@ -476,6 +540,14 @@ func exec(op string) string {
 			}
 			continue
 		}
+		if st[0] == 'S' {
+			t, err := strconv.Atoi(st[1:])
+			if err != nil || (t != 0 && t != ssTime) {
+				return "bad-op" // the slow-start time is fixed so that clock jitter cannot change a weight
+			}
+			bal.SetSlowStart(cluster_conf.BackendBasic{SlowStartTime: &t})
+			continue
+		}
 		if st[0] == 'U' {
 			e := strings.IndexByte(st, '=')
 			if e <= 1 {
@@ -521,20 +593,38 @@ func exec(op string) string {
 		si, e1 := strconv.Atoi(st[1:dot])
 		bi, e2 := strconv.Atoi(st[dot+1 : eq])
 		n, e3 := strconv.Atoi(st[eq+1:])
-		if e1 != nil || e2 != nil || e3 != nil || si < 0 || si >= len(ss) || bi < 0 || bi >= len(ss[si].bs) || n < -1000 || n > 1000 {
+		if e1 != nil || e2 != nil || e3 != nil || si < 0 || si >= len(ss) || bi < 0 || bi >= len(ss[si].bs) {
 			return "bad-op"
 		}
-		if st[0] != 'a' && st[0] != 'c' {
+		switch st[0] {
+		case 'a', 'c':
+			if n < -1000 || n > 1000 {
+				return "bad-op"
+			}
+		case 'r':
+			if n != 1 {
+				return "bad-op"
+			}
+		case 't': // ages are odd multiples of 5000 s: weight*age is then >= 5000 away from the next multiple of ssTime
+			if n < 0 || n > 3005000 || n%10000 != 5000 {
+				return "bad-op"
+			}
+		default:
 			return "bad-op"
 		}
 		rr := bal.VerifC03SubRR(ss[si].name)
 		if rr == nil || rr.VerifC03Backend(ss[si].bs[bi].addr) == nil {
 			continue // the sub-cluster was removed (or re-created empty) by a reload
 		}
-		if st[0] == 'a' {
+		switch st[0] {
+		case 'a':
 			rr.VerifC03Backend(ss[si].bs[bi].addr).SetAvail(n == 1)
-		} else {
+		case 'c':
 			setConn(si, bi, n)
+		case 'r': // what the health checker does when a backend comes back (it also calls SetAvail(true): a step)
+			rr.VerifC03Backend(ss[si].bs[bi].addr).SetRestart(true)
+		case 't':
+			rr.VerifC03AgeSlowStart(ss[si].bs[bi].addr, n)
 		}
 	}
 	return strings.Join(out, ",")
